@@ -7,7 +7,7 @@
    [H] is the password-hash oracle (type, clear text) -> stored key. *)
 From Coq Require Import List String Bool ZArith.
 From Galene Require Import Generated.Routes Model.Api.
-From Galene Require Import Proofs.ApiGate Proofs.ApiAuth Proofs.ApiSecret Proofs.ApiPreserve.
+From Galene Require Import Proofs.ApiGate Proofs.ApiAuth Proofs.ApiSecret Proofs.ApiPreserve Proofs.ApiCurrent.
 Import ListNotations.
 Open Scope string_scope.
 
@@ -255,6 +255,43 @@ Theorem C17_updates_only : forall H e s m c b,
 Proof. exact dispatch_step. Qed.
 Print Assumptions C17_updates_only.
 
+(* concurrent requests: the model takes a request as one atomic step.  The
+   tie for that is the regenerated table: every function of
+   group/description.go that rewrites or removes a group file takes
+   groups.mu before it reads the description and releases it only on return
+   (and the driver's lock-step and concurrent-pair streams).  Under it every
+   concurrent execution of accepted updates is one of the sequences that
+   C17_preserve quantifies over. *)
+Theorem C17_updates_atomic : forall n l, In (n, l) update_functions -> l = true.
+Proof. exact update_functions_locked. Qed.
+Print Assumptions C17_updates_atomic.
+
+(* ------------------------------------------------------------------ *)
+(* 6. the check reads the CURRENT stored description                    *)
+
+(* a revoked password no longer works: after an accepted password change of
+   user u only a password that the new stored password matches passes *)
+Theorem C17_revoked_password : forall H e g u pw p d d',
+  g <> "" -> e_writable e = true ->
+  file_lookup e g = Some d -> set_password d u false pw = Some d' ->
+  let e' := fst (do_set_password e g u false pw) in
+  global_admin_match H e' u p = Some false ->
+  pw_match H pw p <> Some true ->
+  is_admin H e' g (CBasic u p) = false.
+Proof. exact revoked_password. Qed.
+Print Assumptions C17_revoked_password.
+
+(* revoked permissions no longer work *)
+Theorem C17_revoked_permission : forall H e g u nu p d d',
+  g <> "" -> e_writable e = true ->
+  file_lookup e g = Some d -> update_user d u false nu = Some d' ->
+  mem "admin" (perm_list (Some d') (u_perms nu)) = false ->
+  let e' := set_groups e (assoc_set (e_groups e) (clean_name g) d') in
+  global_admin_match H e' u p = Some false ->
+  is_admin H e' g (CBasic u p) = false.
+Proof. exact revoked_permission. Qed.
+Print Assumptions C17_revoked_permission.
+
 (* ------------------------------------------------------------------ *)
 (* non-vacuity                                                          *)
 
@@ -360,4 +397,15 @@ Example C17_example_wildcard_password_user :
   put "w" (CBearer (BName "t2")) = (e, r401) /\
   snd (put "w" (CBasic "w" "anything")) = r204 /\
   snd (put "e" (CBasic "e" "")) = r204.
+Proof. vm_compute. repeat split; reflexivity. Qed.
+
+(* a revoked password: bob (administrator of g1) gets a new password; the old
+   one is refused afterwards, the new one accepted *)
+Example C17_example_revoked_password :
+  let e' := fst (handle exH ex_env
+     (ex_req "PUT" "/galene-api/v0/.groups/g1/.users/bob/.password" (CBasic "root" "SECRET-root")
+             (Build_body_in CTJson (PPassword (plain "fresh"))))) in
+  is_admin exH ex_env "g1" (CBasic "bob" "SECRET-bob") = true /\
+  is_admin exH e' "g1" (CBasic "bob" "SECRET-bob") = false /\
+  is_admin exH e' "g1" (CBasic "bob" "fresh") = true.
 Proof. vm_compute. repeat split; reflexivity. Qed.
